@@ -335,6 +335,7 @@ def decide(prop, tier, seed):
     obligations = 0
     discharged = 0
     fn_list, trusted, rewrites, samples = [], set(), [], []
+    items_known = []
     smt_ms = 0
     for ur in results:
         undecided += ur.undecided
@@ -346,14 +347,27 @@ def decide(prop, tier, seed):
         trusted |= {f"{ur.unit}: {t}" for t in ur.trusted}
         smt_ms += ur.smt_ms
         mine = [o for o in ur.failed if prop in o["props"]]
-        # obligations: one per verus item (function / lemma / spec termination) + named clauses
+        # obligations: one per Verus verification item (a real function under contract with all of its implicit and
+        # explicit VCs, a lemma, a spec-fn termination check).  An item that fails only through obligations attributed to
+        # *other* properties, or only through registered known findings, is not counted (it is listed separately).
         items = [f for f in ur.functions if not f["function"].endswith("__verif_canary")]
-        obligations += len(items)
-        failed_fns = {o["fn"].split("::")[-1] for o in mine}
-        other_failed = {o["fn"].split("::")[-1] for o in ur.failed} - failed_fns
-        discharged += sum(1 for f in items if f["success"])
-        # items that failed only because of obligations of *other* properties are not counted against this property
-        obligations -= sum(1 for f in items if (not f["success"]) and f["function"].split("::")[-1] in other_failed and f["function"].split("::")[-1] not in failed_fns)
+        by_fn = {}
+        for o in ur.failed:
+            by_fn.setdefault(o["fn"].split("::")[-1], []).append(o)
+        for f in items:
+            short = f["function"].split("::")[-1]
+            if f["success"]:
+                obligations += 1
+                discharged += 1
+                continue
+            fails = by_fn.get(short, [])
+            mine_here = [o for o in fails if prop in o["props"]]
+            if not mine_here:
+                continue  # failed for another property's reasons only
+            if all(o["name"] in kf_obl for o in mine_here):
+                items_known.append(f"{ur.unit}/{short}")
+                continue
+            obligations += 1
         for o in mine:
             if o["name"] in kf_obl:
                 knowns.append((o, kf_obl[o["name"]]))
@@ -415,6 +429,7 @@ def decide(prop, tier, seed):
             "bounded_checks": [{"name": h["name"], "bound": h.get("bound"), "status": h["status"]} for h in k_bounded],
             "labelled_clauses": sorted({l for r in results for l in r.labels}),
             "rewrites_applied": rewrites,
+            "items_failing_only_by_known_findings": items_known,
             "known_findings_matched": [{"obligation": o["name"], "what": k["what"]} for o, k in knowns],
             "failed_obligations": [o["name"] for o, _ in violations],
             "undecided": undecided,
@@ -463,6 +478,9 @@ def main():
         import kani_run
         return kani_run.demo_findings()
     prop = a[0]
+    global WORK
+    if not os.environ.get("VERIF_WORK"):
+        WORK = os.path.join(VERIF, ".work", "check_" + prop)  # do not disturb `--unit` development runs
     tier = os.environ.get("VERIF_TIER", "quick")
     if "--tier" in a:
         tier = a[a.index("--tier") + 1]
